@@ -40,6 +40,9 @@ type Action struct {
 	// DelayMs: the reply (whatever it is) goes out this much later than usual; the server is
 	// slow, not dead.
 	DelayMs int `json:"delayMs,omitempty"`
+	// StrayLine: a line that is not an SMTP reply goes out directly in front of the reply (a
+	// banner or debug line of a middlebox); the reply itself is what it would have been.
+	StrayLine bool `json:"strayLine,omitempty"`
 }
 
 // Rule attaches an Action to the Nth occurrence (1-based; 0 = every) of a command on a connection.
@@ -208,28 +211,29 @@ type txn struct {
 
 // Session is the per-connection automaton.
 type Session struct {
-	srv             *Server
-	ID              int
-	pipe            *sim.Pipe
-	raw             net.Conn // the simulated end
-	conn            net.Conn // raw or TLS
-	rbuf            []byte
-	greeted         bool
-	helloed         bool
-	esmtp           bool
-	ext             []string // advertised in the latest EHLO reply (keywords, upper case)
-	tx              *txn
-	TLS             bool
-	TLSState        *tls.ConnectionState
-	authed          bool
-	counts          map[string]int
-	stalled         bool
-	closed          bool
-	mailUTF8        bool
-	stallAfterWrite int64
-	lastAuth        bool   // the previous command was an AUTH exchange
-	lastAuthResp    string // the last SASL response line received (EchoOnCancel)
-	curLine         string
+	srv              *Server
+	ID               int
+	pipe             *sim.Pipe
+	raw              net.Conn // the simulated end
+	conn             net.Conn // raw or TLS
+	rbuf             []byte
+	greeted          bool
+	helloed          bool
+	esmtp            bool
+	ext              []string // advertised in the latest EHLO reply (keywords, upper case)
+	tx               *txn
+	TLS              bool
+	TLSState         *tls.ConnectionState
+	authed           bool
+	counts           map[string]int
+	stalled          bool
+	closed           bool
+	mailUTF8         bool
+	stallAfterWrite  int64
+	lastAuth         bool   // the previous command was an AUTH exchange
+	lastAuthResp     string // the last SASL response line received (EchoOnCancel)
+	challengePending bool   // a scripted 334 went out and has not been answered yet
+	curLine          string
 }
 
 func (s *Session) state() string {
@@ -502,7 +506,15 @@ func (s *Session) reply(cmdSeq int, verb string, nth int, act Action, defCode in
 			}
 		}
 	}
-	_, err := io.WriteString(s.conn, wire.String())
+	out := wire.String()
+	if act.StrayLine {
+		out = "this line is not an SMTP reply\r\n" + out
+	}
+	_, err := io.WriteString(s.conn, out)
+	if code == 334 && (verb == "AUTH" || verb == "AUTHRESP") {
+		// a scripted challenge: the next line has to be a SASL response or the cancel line
+		s.challengePending = true
+	}
 	if act.StopReading {
 		s.pipe.StallC2SFrom(s.pipe.C2SLen())
 	}
@@ -562,6 +574,9 @@ func (s *Session) handle(line string) bool {
 	act, nth, _ := Action{}, 0, false
 	afterAuth := s.lastAuth
 	s.lastAuth = false
+	if line == "*" {
+		s.challengePending = false // the exchange is cancelled
+	}
 	if line == "*" && afterAuth {
 		// The SASL cancel line sent after the exchange already ended with a final reply (net/smtp
 		// does this, go-mail inherited it and its test suite pins it). A strict server answers
@@ -573,6 +588,12 @@ func (s *Session) handle(line string) bool {
 			return s.replyRaw(cmdSeq, "*", 0, 334, s.lastAuthResp)
 		}
 		return s.reply(cmdSeq, "*", 0, Action{}, 500, "", "command unrecognized")
+	}
+	if s.challengePending {
+		s.challengePending = false
+		if line != "*" && c.Verb != "" && len(c.Syntax) == 0 {
+			s.obs("command-while-challenge-pending:"+c.Verb, line)
+		}
 	}
 	if c.Verb == "" && line != "*" && s.srv.Cfg.Auth.EchoOnCancel {
 		// not a command: a SASL response that strayed past the end of the exchange
